@@ -179,9 +179,9 @@ func comparePreRelease(pr1, pr2 []string) int {
 
 // comparePreReleaseIdentifier compares individual pre-release identifiers
 func comparePreReleaseIdentifier(id1, id2 string) int {
-	// Try to parse as integers first
-	num1, err1 := strconv.Atoi(id1)
-	num2, err2 := strconv.Atoi(id2)
+	// Try to parse as integers first (digits only; a sign makes the identifier alphanumeric)
+	num1, err1 := parseNumericIdentifier(id1)
+	num2, err2 := parseNumericIdentifier(id2)
 
 	if err1 == nil && err2 == nil {
 		// Both are numbers, compare numerically
@@ -204,6 +204,14 @@ func comparePreReleaseIdentifier(id1, id2 string) int {
 		return 1
 	}
 	return 0
+}
+
+// parseNumericIdentifier parses a pre-release identifier that consists of digits only
+func parseNumericIdentifier(id string) (int, error) {
+	if strings.TrimLeft(id, "0123456789") != "" {
+		return 0, fmt.Errorf("not a numeric identifier: %s", id)
+	}
+	return strconv.Atoi(id)
 }
 
 func compareInt(a, b int) int {
